@@ -66,7 +66,27 @@ def c03(tier):
     return finish(ev, rep)
 
 
-CHECKS = {"C03": c03}
+def simple(prop, cfgs, assumptions=()):
+    def f(tier):
+        ev = Evidence(prop, tier, core.seed())
+        rep = Reporter(prop, ev)
+        for module, cfg in cfgs:
+            c = cfg.replace("TIER", tier)
+            if not os.path.exists(os.path.join(core.SPEC, c)):
+                c = cfg.replace("TIER", "quick")
+            model_replay(prop, tier, ev, rep, module, c)
+        ev.assumptions += list(assumptions)
+        return finish(ev, rep)
+    return f
+
+
+c01 = simple("C01", [("MC_Curve.tla", "MC_Curve_eval_TIER.cfg")])
+c02 = simple("C02", [("MC_Curve.tla", "MC_Curve_basis_TIER.cfg")])
+c04 = simple("C04", [("MC_Curve.tla", "MC_Curve_insert_TIER.cfg")])
+c06 = simple("C06", [("MC_Curve.tla", "MC_Curve_elevate_TIER.cfg")])
+c07 = simple("C07", [("MC_Curve.tla", "MC_Curve_split_TIER.cfg")])
+
+CHECKS = {"C01": c01, "C02": c02, "C03": c03, "C04": c04, "C06": c06, "C07": c07}
 
 
 def run(prop, tier):
